@@ -347,7 +347,7 @@ inline stim::Circuit gen_qec_circuit(Rng &rng, const QecOpts &o, Stats *st = nul
     int nstab = 1 + (int)rng.below(nd - 1);          // measured stabilizers: images of Z_0..Z_{nstab-1}
     int obs_gen = nstab;                              // image of Z_nstab commutes with all of them; used as the logical
     int nanc = nstab;                                 // one ancilla per stabilizer for the ancilla-based variant
-    if (nq_out) *nq_out = nd + nanc;
+    if (nq_out) *nq_out = nd + nanc + 2;
     // the measured stabilizers and the logical operator, as signed Pauli strings that gates between rounds conjugate
     std::vector<PauliString<64>> stabs;
     for (int s = 0; s < nstab; s++) stabs.push_back(PauliString<64>(T.zs[s]));
@@ -480,10 +480,31 @@ inline stim::Circuit gen_qec_circuit(Rng &rng, const QecOpts &o, Stats *st = nul
     m_since_logical += (size_t)rounds * (per_round + heralds_per_round);
     if (o.feedback && rng.chance(0.3)) {
         // a Pauli controlled by the last stabilizer measurement, applied to a fresh ancilla that is measured next: deterministic detector
-        uint32_t anc = (uint32_t)nd;
-        c.safe_append_u("R", {anc});
-        c.safe_append_u("CX", {TARGET_RECORD_BIT | 1u, anc});
-        c.safe_append_u("M", {anc});
+        uint32_t anc = (uint32_t)nd, anc2 = (uint32_t)nd + 1;
+        switch (rng.below(5)) {
+            case 0:
+            case 1:
+                c.safe_append_u("R", {anc});
+                c.safe_append_u("CX", {TARGET_RECORD_BIT | 1u, anc});
+                c.safe_append_u("M", {anc});
+                break;
+            case 2:
+                // the feedback pair and an ordinary pair that reads the corrected qubit, fused into one instruction
+                c.safe_append_u("R", {anc, anc2});
+                c.safe_append_u("CX", {TARGET_RECORD_BIT | 1u, anc, anc, anc2});
+                c.safe_append_u("M", {anc2});
+                break;
+            case 3:
+                c.safe_append_u("R", {anc, anc2});
+                c.safe_append_u("XCZ", {anc, TARGET_RECORD_BIT | 1u, anc2, anc});
+                c.safe_append_u("M", {anc2});
+                break;
+            default:
+                c.safe_append_u("R", {anc, anc2});
+                c.safe_append_u("CY", {TARGET_RECORD_BIT | 1u, anc, anc, anc2});
+                c.safe_append_u("M", {anc2});
+                break;
+        }
         c.safe_append_u("DETECTOR", {TARGET_RECORD_BIT | 1u, TARGET_RECORD_BIT | 2u});
         m_since_logical += 1;
         if (st) st->hit("qec.feedback");
